@@ -61,11 +61,12 @@ void add_regex(const std::string& s, regex::dfa_builder<MAXL>& b, size16_t idx)
     regex::regex_pattern_data<N> pd{ ref };
     regex::add_term_data_to_dfa<MAXL, N>(pd, b, idx);
 }
+inline long g_pred = 0;   // the capacity the library reserves for the term just added (Terms::dfa_size)
 template<size_t... I>
 bool dispatch_string(const std::string& s, regex::dfa_builder<MAXL>& b, size16_t idx, std::index_sequence<I...>)
 {
     bool done = false;
-    ((s.size() + 1 == I + 2 ? (add_string<I + 2>(s, b, idx), done = true) : false), ...);
+    ((s.size() + 1 == I + 2 ? (add_string<I + 2>(s, b, idx), g_pred = long(string_term<I + 2>::dfa_size), done = true) : false), ...);
     return done;
 }
 template<size_t... I>
@@ -125,14 +126,14 @@ int main(int argc, char** argv)
             regex::dfa_builder<MAXL> b(*sm);
             std::string threw;
             std::vector<std::vector<Call>> rcalls(j.terms.size());
-            std::vector<long> sizes_after;
+            std::vector<long> sizes_after, preds;
             vh::tl_log.reset();
             try
             {
                 for (size_t t = 0; t < j.terms.size(); ++t)
                 {
                     const Term& tm = j.terms[t];
-                    if (tm.kind == 'C') regex::add_term_data_to_dfa(tm.data[0], b, size16_t(t));
+                    if (tm.kind == 'C') { regex::add_term_data_to_dfa(tm.data[0], b, size16_t(t)); g_pred = long(char_term::dfa_size); }
                     else if (tm.kind == 'S') { if (!dispatch_string(tm.data, b, size16_t(t), std::make_index_sequence<12>{})) throw std::runtime_error("harness: string length unsupported"); }
                     else
                     {
@@ -143,8 +144,14 @@ int main(int argc, char** argv)
                         vh::checked_buffer buf(tm.data, 1);
                         utils::no_stream ns;
                         regex::regex_parser::regex_parser_object.context_parse(rb, parse_options{}.set_skip_whitespace(false), buf, ns);
+                        // regex_term<P>::dfa_size = analyze_dfa_size(P): the same analyser run
+                        vh::checked_buffer buf2(tm.data, 1);
+                        regex::dfa_size_analyzer an;
+                        auto ar = regex::regex_parser::regex_parser_object.context_parse(an, parse_options{}.set_skip_whitespace(false), buf2, ns);
+                        g_pred = ar.has_value() ? long(ar.value().n) : -1;
                     }
                     sizes_after.push_back(long(sm->size()));
+                    preds.push_back(g_pred);
                 }
             }
             catch (const std::exception& e) { threw = e.what(); }
@@ -159,6 +166,8 @@ int main(int argc, char** argv)
             }
             o += "],\"sizes_after\":[";
             for (size_t i = 0; i < sizes_after.size(); ++i) { if (i) o += ','; o += std::to_string(sizes_after[i]); }
+            o += "],\"preds\":[";
+            for (size_t i = 0; i < preds.size(); ++i) { if (i) o += ','; o += std::to_string(preds[i]); }
             o += "],\"dfa\":";
             if (threw.empty()) ctpg_verif::access::dump_dfa(*sm, o); else o += "null";
             o += ",\"matches\":[";
